@@ -310,12 +310,55 @@ def _rec(run, name, v, fn):
         run.pending_failures.append((name, v.status, v.detail))
 
 
+def verify_sample_frames(run, tier):
+    """first clause of the property, on the real sampler decoder (perf.handle_event, with handle_stk_uhdr / handle_stk_udata
+    inlined): the user stack of a sample is the first N words (N = the header's count) of the window's stack-data records in
+    stream order, each record contributing its four words.  Same post-condition object as C20's sampler clause."""
+    from pyvc import decoders
+    from checks import c20
+    sess = Session(policy=decoders.DecoderPolicy())
+    tabs = decoders.handler_tables(sess)
+    fq = c20.FQ['PERF_Event']
+    try:
+        paths = decoders.explore_decoder(sess, 'PERF_Event', tabs['PERF_Event'][0][1], post=c20.post_sampler(sess))
+    except Unsupported as ex:
+        run.add('C15/sample/supported', 'unsupported', '', 0, fq, str(ex))
+        run.pending_failures.append(('C15/sample/supported', 'unsupported', str(ex)))
+        return
+    agg = {}
+    for s in paths:
+        if s.outcome != 'return':
+            continue
+        for ob in s.obligations:
+            if 'user-stack' not in ob.name:
+                continue
+            name = ob.name.replace('C20/sampler/user-stack.', 'C15/sample/')
+            v = solve.prove(ob.pc, ob.goal, 20000, tier)
+            cur = agg.setdefault(name, {'status': 'proved', 'ms': 0.0, 'backend': v.backend, 'n': 0})
+            cur['ms'] += v.ms
+            cur['n'] += 1
+            if v.status == 'refuted':
+                cur['status'] = 'refuted'
+            elif v.status != 'proved' and cur['status'] == 'proved':
+                cur.update(status='unknown', detail=v.detail)
+    if not agg:
+        run.engine_error('C15 sample frames: no obligation generated')
+    for name, cur in sorted(agg.items()):
+        if cur['status'] == 'proved':
+            run.add(name, 'proved', cur['backend'] + ' (%d paths)' % cur['n'], cur['ms'], fq)
+        else:
+            run.add(name, cur['status'], cur['backend'], cur['ms'], fq, cur.get('detail', ''))
+            run.pending_failures.append((name, cur['status'], cur.get('detail', 'refuted on a path of the symbolic run')))
+    run.hashes.update(sess.repo.hashes)
+
+
 def run_check(run, tier):
     run.pending_failures = []
     run.trusted += ['pyvc interpreter + (array, length) list model', 'z3 5.1 / cvc5',
                     'assumed contracts: bisect.bisect on a sorted list, list.insert, `in` on a list']
     run.assumptions += ['frames are 64-bit words; image load addresses are ints',
-                        'frames of a sample are the first N stack-data words of its window: obligation C20/sampler/user-stack.frames']
+                        ]
+    verify_sample_frames(run, tier)
     verify_insert(run, tier)
     verify_feed(run, tier)
     lemmas(run, tier)
@@ -330,6 +373,22 @@ def run_check(run, tier):
 def finish(run):
     if not run.pending_failures and run.tier != 'thorough':
         return
+    sample = [x for x in run.pending_failures if x[0].startswith('C15/sample/')]
+    if sample:
+        out = native({'kind': 'composite_search', 'name': 'PERF_Event', 'budget': 2500, 'seed': run.seed}, timeout=600)
+        run.bounded.append({'what': 'bounded native search of sampler windows against spec/composite.py (refute mode only)',
+                            'windows_tried': out.get('tried'), 'bound': out.get('bound'), 'found': bool(out.get('found'))})
+        f = out.get('found')
+        for ob, status, detail in sample:
+            run.pending_failures.remove((ob, status, detail))
+            if f:
+                run.violation(ob, {'request': f['request'], 'native': f, 'solver_output': '%s (%s)' % (status, detail)}, True, what='PERF_Event: ' + f.get('what', ''))
+            elif status == 'refuted':
+                run.violation(ob, {'request': None, 'solver_output': detail}, False, what='obligation %s no longer holds' % ob)
+            else:
+                run.undecide(ob, detail)
+        if not run.pending_failures and run.tier != 'thorough':
+            return
     out = native({'kind': 'callstack_search', 'seed': run.seed, 'budget': 20000 if run.tier == 'thorough' else 4000}, timeout=600)
     run.bounded.append({'what': 'bounded native search of announcement/sample sequences against the callstack specification (refute mode only)',
                         'cases_tried': out.get('tried'), 'bound': out.get('bound'), 'found': bool(out.get('found'))})
